@@ -28,6 +28,12 @@ MODELS = {
     "std::option::Option::<T>::is_none_or": "option_is_none_or",
     "std::option::Option::<T>::filter": "option_filter",
     "std::option::Option::<T>::and_then": "option_and_then",
+    "std::option::Option::<T>::or": "option_or",
+    "std::option::Option::<T>::or_else": "option_or_else",
+    "std::option::Option::<T>::map_or": "option_map_or",
+    "std::option::Option::<T>::map_or_else": "option_map_or_else",
+    "std::result::Result::<T, E>::unwrap_or": "result_unwrap_or",
+    "std::result::Result::<T, E>::is_ok_and": "result_is_ok_and",
     "core::bool::<impl bool>::then_some": "bool_then_some",
     "core::bool::<impl bool>::then": "bool_then",
     "std::result::Result::<T, E>::map": "result_map",
